@@ -239,6 +239,10 @@ func (g *genState) print(d Dest, inMain bool) Op {
 	case File:
 		op.Redir = []string{">", ">", ">>"}[g.rng.Intn(3)]
 		op.Form = []string{FPrint1, FPrint1, FPrint2, FPrintf, FPrintfT}[g.rng.Intn(5)]
+		if g.mode == ModeNone && g.rng.Intn(10) == 0 {
+			// printf of nothing: no byte is written, but the name is opened (created, truncated by >)
+			op.Form, op.Size = FPrintf, 0
+		}
 	case Sink:
 		op.Redir = "|"
 		op.Form = []string{FPrint1, FPrint2, FPrintf, FPrintfT}[g.rng.Intn(4)]
